@@ -113,7 +113,8 @@ class _Eval:
             "RegisteredIntermediate.tensor": self.h_tensor,
             "RegisteredIntermediate.expand_itmd": self.h_expand_itmd,
             "Expr": self.h_expr,
-            "cached_member": lambda sx, a, kw: a[0],
+            "S": Obj(None, "S", Half=Fraction(1, 2), One=1, Zero=0, NegativeOne=-1),
+            "Pow": self.h_pow,
         }
         for k in TENSOR_CLASSES:
             hooks[k] = (lambda kind: lambda sx, a, kw: self.h_tensor_ctor(sx, kind, a, kw))(k)
@@ -132,6 +133,11 @@ class _Eval:
             names(x)
             return x
         raise AnalysisError(f"{self.current}: get_symbols({x!r}) not understood")
+
+    def h_pow(self, sx, a, kw):
+        if len(a) != 2 or kw or not isinstance(a[0], (Poly, int, Fraction)) or isinstance(a[0], bool):
+            raise AnalysisError(f"{self.current}: Pow({a!r}) outside the formula IR")
+        return Poly.lift(a[0]) ** a[1] if isinstance(a[0], Poly) else Fraction(a[0]) ** a[1]
 
     def h_namedtuple(self, sx, a, kw):
         fields = a[1] if len(a) > 1 else kw.get("field_names")
@@ -246,9 +252,13 @@ class _Eval:
             return permute
         if attr == "subs":
             def subs(s, a, kw):
-                if not (a and isinstance(a[0], dict)):
+                pairs = a[0].items() if a and isinstance(a[0], dict) else a[0] if len(a) == 1 else [tuple(a)] if len(a) == 2 else None
+                try:
+                    mp = {names([k])[0]: names([v])[0] for k, v in pairs}
+                except (TypeError, ValueError):
                     raise AnalysisError(f"{self.current}: subs argument not understood")
-                mp = {names([k])[0]: names([v])[0] for k, v in a[0].items()}
+                if len(mp) != len(list(pairs)):
+                    raise AnalysisError(f"{self.current}: subs with a repeated key")
                 if kw.get("simultaneous") is not True and set(mp) & set(mp.values()) and any(k != v for k, v in mp.items()):
                     raise AnalysisError(f"{self.current}: subs of overlapping indices without simultaneous=True")
                 return XPoly(obj.rename(mp).terms, tgt)
